@@ -43,6 +43,8 @@ pub struct ModelRun {
     pub trace: Trace,
     /// steps the reference interpreter took
     pub steps: u64,
+    /// duplicate scoped variable: the statement that defined it first
+    pub conflict_with: Option<Id>,
 }
 
 impl ModelRun {
@@ -56,7 +58,8 @@ pub fn model_run(prog: &GProg, tree: &Tree, index: &TreeIndex, source: &str, glo
     let mut it = Interp::new(prog, tree, index, source, globals, initial);
     let outcome = it.run();
     let steps = it.steps_used();
-    ModelRun { outcome, graph: it.graph, trace: it.trace, steps }
+    let conflict_with = it.conflict_with;
+    ModelRun { outcome, graph: it.graph, trace: it.trace, steps, conflict_with }
 }
 
 pub fn rerr_json(e: &RErr) -> J {
